@@ -1,5 +1,6 @@
 """C02 — EXDATE/EXRULE remove, RDATE adds: recurrence-set algebra."""
 from ..facts import walk, strip, strip_casts, lv, show, writes, calls, int_value, root_var
+from ..flow import cond_atoms
 from ..q import (Site, call_sites, site_before, forward_scan, backward_scan, const_eval, edge_start, elem_has_call)
 from ..absw import AbsWalk
 from ..order import PureEval, order_type
@@ -353,9 +354,77 @@ def r02_2(prog, rep):
         rep.fail(rid, "clone_evfilt/copies-state", cl.loc(), "clone does not copy %s" % sorted(need - copied))
 
 
+def r02_3(prog, rep):
+    """Outside the step function, exceptions are consumed only for priming, or under a *strict* "this exception starts before the
+    occurrence" test: an exception that starts exactly with an occurrence names it (RFC 5545 3.8.5.1) and must stay pending."""
+    rid = "R02.3"
+    rec, ef, xf, pf, mk, exc_param = _filter_roles(prog)
+    n = 0
+    for f in prog.fns_in("evfilt.c"):
+        if not f.cfg or f.name == "next_evfilt":
+            continue
+        cfg = f.cfg
+        loops = cfg.natural_loops()
+        for S in call_sites(f, "echs_evstrm_pop"):
+            t = lv(cfg.resolve(S.node["a"][0]))
+            if not (t == exc_param or t.endswith("->" + xf)):
+                continue
+            n += 1
+            key = "%s/pop-exception#%d" % (f.name, n)
+            inloop = [h for h, blks in loops.items() if S.b in blks]
+            if not inloop:
+                rep.ok(rid, key, f.loc(S.line), "one unconditional pop primes the pending exception")
+                continue
+            # the loop repeats the pop: the condition that sends control back must order exception and occurrence strictly:
+            # on the edge that stays in the loop, `lt_p(exception, occurrence)` must hold
+            popped = set()
+            for bb, ii, xx, ln in cfg.all_elems():
+                for l, kind, nn in writes(cfg.resolve(xx)):
+                    rhs = nn.get("init") if kind == "decl" else (nn.get("r") if nn.get("k") == "bin" and nn["op"] == "=" else None)
+                    if rhs is not None and any(c_.get("fn") == "echs_evstrm_pop" and lv(c_["a"][0]) == t for c_ in calls(rhs)):
+                        popped.add(lv(l))
+            strict, weak = [], []
+            for h in inloop:
+                for b in loops[h]:
+                    c = cfg.cond(b)
+                    if c is None:
+                        continue
+                    for si, sb in enumerate(cfg.blocks[b].succs):
+                        if sb is None or sb not in loops[h]:
+                            continue
+                        # edge b -> sb stays in the loop
+                        for atom in cond_atoms(c, si == 0):
+                            if len(atom) != 3:
+                                continue
+                            e_ = strip(atom[2])
+                            if not (isinstance(e_, dict) and e_.get("k") == "call"):
+                                continue
+                            fn_ = e_.get("fn") or ""
+                            if not any(fn_.endswith(sfx) for sfx in ("_lt_p", "_le_p", "_eq_p")) and "precedes" not in fn_ and "overlaps" not in fn_:
+                                continue
+                            a0 = lv(strip_casts(e_["a"][0])).split(".")[0]
+                            if fn_.endswith("_lt_p") and atom[0] == "true" and a0 in popped:
+                                strict.append(fn_)
+                            else:
+                                weak.append("%s%s(%s)" % ("" if atom[0] == "true" else "!", fn_, ", ".join(lv(strip_casts(x_)) for x_ in e_["a"])))
+            if strict and not weak:
+                rep.ok(rid, key, f.loc(S.line), "exceptions are skipped in a loop only while %s holds (strictly earlier)" % strict[0])
+            else:
+                rep.fail(rid, key, f.loc(S.line),
+                         "%s() consumes exceptions in a loop controlled by %s: an exception that starts exactly when an occurrence starts is "
+                         "consumed too, so the occurrence it names is delivered" % (f.name, ", ".join(weak) or "no ordering test"))
+    if n < 1:
+        rep.broken_("rule=R02.3 no pop of the exception stream found outside next_evfilt")
+
+
 def run(prog, rep, tier, snap):
     rep.rule("R02.1", "single-step decision table of next_evfilt over all order types of occurrence/exception endpoints", 8)
-    r02_1(prog, rep, tier)
+    rep.call(r02_1, prog, rep, tier)
     rep.rule("R02.2", "wiring of RRULE/RDATE vs EXRULE/EXDATE into the filter; sortedness; priming and cloning of the pending exception", 8)
-    r02_2(prog, rep)
+    rep.call(r02_2, prog, rep)
+    rep.rule("R02.3", "exceptions are consumed outside the step function only for priming or strictly before the occurrence", 1)
+    rep.call(r02_3, prog, rep)
+    from . import c03
+    rep.rule("R03.5", "NULL-terminated stream lists: every argument in front of the terminator is non-NULL (shared with C03)", 4)
+    rep.call(c03.r03_5, prog, rep)
 READY = True
